@@ -820,7 +820,7 @@ def kitchen_sink(rng, custom):
 
 
 def generate(rng, tier):
-    n, maxops = (600, 9) if tier == "quick" else (12000, 14)
+    n, maxops = (600, 9) if tier == "quick" else (10000, 14)
     # directed histories first: every path, all roles / one role at a time
     yield kitchen_sink(rng, dict((r, i + 1) for i, r in enumerate(ROLES)))
     yield kitchen_sink(rng, {})
